@@ -22,8 +22,11 @@ type c04Exec struct {
 	NilCtx bool `json:"nil_context,omitempty"`
 	// Rename: before this execution the caller renames a key of the (long-lived) context
 	// map in place - to something that is not an identifier, or back again
-	Rename  bool   `json:"rename_key_in_place,omitempty"`
-	SetGlob string `json:"set_global,omitempty"`
+	Rename bool `json:"rename_key_in_place,omitempty"`
+	// EditList: before this execution the caller overwrites (or restores) elements of the long
+	// list in the context, in place
+	EditList bool   `json:"edit_list_in_place,omitempty"`
+	SetGlob  string `json:"set_global,omitempty"`
 }
 
 type c04Spec struct {
@@ -81,6 +84,9 @@ func c04Gen(tp *Tapes) *c04Spec {
 		}
 		if g.Draw(8) == 7 {
 			e.Rename = true
+		}
+		if g.Draw(6) == 5 {
+			e.EditList = true
 		}
 		if f.Draw(3) == 2 {
 			switch f.Draw(4) {
@@ -210,13 +216,17 @@ func (c04Checker) Run(tp *Tapes, opt RunOpt) *Outcome {
 				delete(c, "lz-missing")
 				c["lzmissing"] = "nope.tpl"
 			}
-			// ... and overwrites elements of a long list in place (same slice, same length)
+		}
+		// editList: the caller overwrites elements of a long list in place (same slice, same
+		// length, the context stays valid) - or puts them back
+		edited := map[int]bool{}
+		editList := func(c pongo2.Context, on bool, variant int) {
 			if l, ok := c["longs"].([]string); ok {
 				for _, i := range []int{7, 14, 21} {
-					if bad {
+					if on {
 						l[i] = "x-" + fmt.Sprint(i)
 					} else {
-						l[i] = longList(variant % 3)[i] // back to what it was
+						l[i] = longList(variant % 3)[i]
 					}
 				}
 			}
@@ -225,6 +235,10 @@ func (c04Checker) Run(tp *Tapes, opt RunOpt) *Outcome {
 			if e.Rename && !sp.Pool[e.Ctx].BadKey { // (never two invalid keys: which one is reported depends on map order)
 				renamed[e.Ctx] = !renamed[e.Ctx]
 				rename(sys.pool[e.Ctx], renamed[e.Ctx], sp.Pool[e.Ctx].Variant) // same map object, same length
+			}
+			if e.EditList {
+				edited[e.Ctx] = !edited[e.Ctx]
+				editList(sys.pool[e.Ctx], edited[e.Ctx], sp.Pool[e.Ctx].Variant)
 			}
 			if e.SetGlob != "" {
 				curGlob = e.SetGlob
@@ -246,10 +260,13 @@ func (c04Checker) Run(tp *Tapes, opt RunOpt) *Outcome {
 			if renamed[e.Ctx] {
 				rename(rctx, true, sp.Pool[e.Ctx].Variant)
 			}
+			if edited[e.Ctx] {
+				editList(rctx, true, sp.Pool[e.Ctx].Variant)
+			}
 			want := ref.exec(sp, i, e, rctx)
 			ref.w.Fired = map[string]int{}
 			hh.u64(uint64(e.Ctx)<<8 | uint64(e.Entry))
-			hh.str(fmt.Sprintf("%v|%s|%v", e.NilCtx, e.SetGlob, e.Rename))
+			hh.str(fmt.Sprintf("%v|%s|%v|%v", e.NilCtx, e.SetGlob, e.Rename, e.EditList))
 			for _, f := range e.Plan {
 				hh.u64(uint64(f.Site)<<40 | uint64(f.Fault)<<32 | uint64(f.Occ))
 			}
